@@ -123,7 +123,13 @@ func (c *Checker) Check(host string) (ok bool, err error) {
 
 	matched, receivedHashes := c.processAnswer(hashesToRequest, resp, host)
 
-	c.storeInCache(hashesToRequest, receivedHashes)
+	if rc := resp.Rcode; rc == dns.RcodeSuccess || rc == dns.RcodeNameError {
+		c.storeInCache(hashesToRequest, receivedHashes)
+	} else {
+		// The service has failed to answer, so the absence of hashes in the
+		// response says nothing about the host and must not be cached.
+		log.Debug("%s: checking %s: response code %s", c.svc, host, dns.RcodeToString[rc])
+	}
 
 	return matched, nil
 }
